@@ -104,6 +104,10 @@ def expr(node, opts=None):
         return {'e': 'exists', 'neg': False, 'q': query(node.args[0], opts)}
     if k == 'NotExists':
         return {'e': 'exists', 'neg': True, 'q': query(node.args[0], opts)}
+    if k == 'Case':
+        return {'e': 'case', 'arg': expr(node.arg, opts) if getattr(node, 'arg', None) is not None else NONE,
+                'rules': [[expr(w, opts), expr(t, opts)] for w, t in node.rules],
+                'default': expr(node.default, opts) if node.default is not None else NONE}
     if k == 'TypeCast':
         if str(node.type_name).lower() not in ('int', 'integer', 'bigint'):
             raise Unsupported('cast to ' + str(node.type_name))
@@ -188,6 +192,26 @@ def query(node, opts=None):
             'group': [expr(g, opts) for g in (node.group_by or [])],
             'having': expr(node.having, opts) if node.having is not None else NONE,
             'order': order, 'limit': _int_const(node.limit), 'offset': _int_const(node.offset), 'ctes': ctes}
+
+
+def dml(node):
+    """Insert / Update / Delete -> the DML record of SQLSem.ApplyDml."""
+    k = _name(node)
+    if k == 'Insert':
+        tab = ident_parts(node.table)[-1]
+        cols = [ident_parts(c)[-1] if _name(c) == 'Identifier' else str(getattr(c, 'name', c)) for c in (node.columns or [])]
+        if node.from_select is not None:
+            return {'d': 'insert-select', 'table': tab, 'cols': cols, 'q': query(node.from_select)}
+        return {'d': 'insert', 'table': tab, 'cols': cols, 'rows': [[expr(x) for x in row] for row in node.values]}
+    if k == 'Update':
+        if node.from_select is not None:
+            raise Unsupported('update from')
+        return {'d': 'update', 'table': ident_parts(node.table)[-1],
+                'set': [[str(c), expr(v)] for c, v in node.update_columns.items()],
+                'where': expr(node.where) if node.where is not None else NONE}
+    if k == 'Delete':
+        return {'d': 'delete', 'table': ident_parts(node.table)[-1], 'where': expr(node.where) if node.where is not None else NONE}
+    raise Unsupported('dml ' + k)
 
 
 def tables_of(q, acc=None):
